@@ -460,7 +460,11 @@ REGEX_OPERANDS = [("posix-extended", "a{2,1}", False), ("posix-basic", "a\\{2,1\
                   ("posix-extended", "(\\1)", False), ("posix-extended", ".*/\\2(a)(a)", False), ("posix-extended", "((a)\\1)", False),
                   ("posix-extended", "a)\\1", False), ("posix-extended", "(a)(b)\\3", False), ("emacs", "\\(a\\)\\1", True),
                   ("emacs", "\\(\\(a\\)\\2\\)", True), ("posix-extended", "(a)(b|\\1)", True), ("posix-extended", "[\\1](a)", True),
-                  ("posix-extended", "(a)\\\\1", True), ("posix-basic", "\\(a\\)*\\1", True)]
+                  ("posix-extended", "(a)\\\\1", True), ("posix-basic", "\\(a\\)*\\1", True),
+                  # character classes: twelve names, "[:" closed by ":]"; none of this in emacs
+                  ("posix-extended", "[[:word:]]", False), ("posix-basic", "[[:ascii:]]", False), ("grep", "x[[:a]", False), ("sed", "[[:alpha]", False),
+                  ("posix-extended", "[[:a]]", False), ("posix-extended", "[[:upper:][:LOWER:]]", False), ("posix-extended", "[[:alpha:][:digit:]_]", True),
+                  ("posix-extended", "[^][:digit:]a]", True), ("emacs", "[[:word:]]", True), ("posix-basic", "[:alpha:]", True), ("posix-extended", "[]:a]", True)]
 
 
 def fprintf_keeps_file(ctx, forest):
